@@ -152,6 +152,7 @@ def codec_check(acc, shard, nshards):
         if len(probs) > 5:
             break
     acc.count("codec_rows", n)
+    acc.evaluations += n
     return probs
 
 
